@@ -153,6 +153,9 @@ Definition steps_below (n : nat) (sched : list sev) : bool :=
 Definition all_decided (n : nat) (st : state) : bool :=
   forallb (fun t => decided (pcs st t)) (seq 0 n).
 
+(* a complete schedule for n requests: one after the other, four steps each *)
+Definition storm_sched (n : nat) : list sev := flat_map (fun t => repeat (Step t) 4) (seq 0 n).
+
 (* ------------------------------------------------------------------------------------------ *)
 (* Part 2.  One admitted session, sequentially: what Execute and the wait loops do with the
    Communication and the processes, for each way the session can end.                           *)
@@ -276,6 +279,14 @@ Definition row (P : nat) (m : smap) (s : nat) : list nat := somes (map (m s) (se
 Definition sm_release (P : nat) (m : smap) (s : nat) : smap * list nat :=
   (fun s' p' => if Nat.eqb s' s then None else m s' p', row P m s).
 
+(* Close() of a stream can fail (the remote side reset it already, the connection is gone ...).
+   ReleaseStreams logs the error and goes on (manager.go: `log.Err(err)...` inside the loop, the
+   `delete` after it is unconditional): [fails x] - does Close of stream x return an error? - is an
+   input on which neither the map after the release nor the list of closed streams depends.  The
+   definition takes it all the same so that the theorems can say "whatever Close returns". *)
+Definition sm_release_f (fails : nat -> bool) (P : nat) (m : smap) (s : nat) : smap * list nat :=
+  sm_release P m s.
+
 Inductive sop := OAdd (s p x : nat) | OGet (s p : nat) | ORelease (s : nat).
 
 (* state of a run: the map and how often each stream was closed so far *)
@@ -345,3 +356,56 @@ Fixpoint model_sobs (S P X : nat) (st : sst) (ops : list sop) : list sobs :=
 
 Definition releases_below (S : nat) (ops : list sop) : bool :=
   forallb (fun o => match o with ORelease s => Nat.ltb s S | _ => true end) ops.
+
+(* ------------------------------------------------------------------------------------------ *)
+(* Part 4.  Libp2pCommunication on top of the stream map (comm/p2p/libp2p.go):
+     sendMessage(to, msg, sessionID): stream := streamManager.Stream(sessionID, to); if there is
+        none: stream = host.NewStream(to); streamManager.AddStream(sessionID, to, stream);
+        then the message is written to the stream
+     CloseSession(sessionID) = streamManager.ReleaseStreams(sessionID)
+   Streams are numbered in the order the host is asked for them.                                *)
+Inductive cop := CSend (s p : nat) | CClose (s : nat).
+
+(* what is seen from outside (at the host's streams): the stream a message was written to / the
+   streams that were closed *)
+Inductive cobs := CWrote (x : nat) | CClosed (xs : list nat).
+
+(* state: the stream map and the number of streams opened so far *)
+Definition ccst := (smap * nat)%type.
+
+Definition comm_step (P : nat) (st : ccst) (o : cop) : ccst * cobs :=
+  let (m, nx) := st in
+  match o with
+  | CSend s p =>
+      match sm_get m s p with
+      | Some x => (st, CWrote x)
+      | None => ((sm_add m s p nx, S nx), CWrote nx)
+      end
+  | CClose s => let (m', c) := sm_release P m s in ((m', nx), CClosed c)
+  end.
+
+Fixpoint model_cobs (P : nat) (st : ccst) (ops : list cop) : list cobs :=
+  match ops with
+  | [] => []
+  | o :: ops' => let (st', ob) := comm_step P st o in ob :: model_cobs P st' ops'
+  end.
+
+Definition memb (x : nat) (l : list nat) : bool := existsb (Nat.eqb x) l.
+
+(* The specification, on the observations alone.  [cl]: the streams closed so far; [live s]: the
+   streams session s has used since it was last closed.
+   - a message is never written to a stream that has been closed (after CloseSession a session id
+     that is started again works on fresh streams, not on the dead ones of its previous run);
+   - CloseSession s closes every stream the session has used since its last CloseSession. *)
+Fixpoint comm_ok (cl : list nat) (live : nat -> list nat) (ops : list cop) (obs : list cobs) : bool :=
+  match ops, obs with
+  | [], [] => true
+  | CSend s p :: ops', CWrote x :: obs' =>
+      negb (memb x cl) && comm_ok cl (upd live s (x :: live s)) ops' obs'
+  | CClose s :: ops', CClosed xs :: obs' =>
+      forallb (fun x => memb x xs) (live s) && comm_ok (xs ++ cl) (upd live s []) ops' obs'
+  | _, _ => false
+  end.
+
+Definition peers_below (P : nat) (ops : list cop) : bool :=
+  forallb (fun o => match o with CSend _ p => Nat.ltb p P | CClose _ => true end) ops.
